@@ -14,6 +14,7 @@ import os
 import sys
 
 SUFFIX = '_nr'
+NOOP = False      # additionally insert a no-op expression statement (`...`) at the top of every function body
 
 
 def local_stores(fn):
@@ -59,6 +60,10 @@ class Renamer(ast.NodeTransformer):
         self.active.append((self.active[-1] - params) | mine)
         # decorators / defaults belong to the enclosing scope
         node.body = [self.visit(b) for b in node.body]
+        if NOOP:
+            k = 1 if node.body and isinstance(node.body[0], ast.Expr) and isinstance(node.body[0].value, ast.Constant) \
+                and isinstance(node.body[0].value.value, str) else 0
+            node.body.insert(k, ast.Expr(value=ast.Constant(value=Ellipsis)))
         self.active.pop()
         node.decorator_list = [self.visit(d) for d in node.decorator_list]
         node.args.defaults = [self.visit(d) for d in node.args.defaults]
